@@ -1434,6 +1434,48 @@ def replay_of(r):
             "how": "save `program` as x.ms in an empty directory and run `mscript run x.ms -q`; or ./verify replay <this file>"}
 
 
+# ---- object-valued FIELD reads as receiver / earlier argument, with a later argument that re-points the field: the
+# object read first is the one used (identity is fixed when the operand is evaluated).  Python statement of the property.
+def repoint_cases(rng, n):
+    pre = ("class Node {\n  id: int\n  hits: int\n  constructor(self, id: int) {\n    self.id = id\n    self.hits = 0\n  }\n"
+           "  fn touch(self, k: int) -> int {\n    self.hits = self.hits + 1\n    return self.id * 100 + k\n  }\n}\n"
+           "class Holder {\n  cur: Node\n  constructor(self, n: Node) {\n    self.cur = n\n  }\n"
+           "  fn point_to(self, n: Node) -> int {\n    self.cur = n\n    return 7\n  }\n}\n"
+           "same = fn(p: Node, q: int, r: Node) -> int {\n  return p.id * 10 + r.id\n}\n")
+    out = []
+    for _ in range(n):
+        i, j = rng.sample(range(1, 9), 2)
+        src = pre + "a = Node(%d)\nc = Node(%d)\nh = Holder(a)\n" % (i, j)
+        exp = []
+        hits = {"a": 0, "c": 0}
+        cur = "a"
+        ids = {"a": i, "c": j}
+        for _ in range(rng.randint(2, 5)):
+            other = "c" if cur == "a" else "a"
+            form = rng.choice(["method", "args", "plain", "is"])
+            if form == "method":
+                # receiver h.cur is read BEFORE the argument re-points it
+                src += "print h.cur.touch(h.point_to(%s))\n" % other
+                hits[cur] += 1
+                exp.append(str(ids[cur] * 100 + 7))
+                cur = other
+            elif form == "args":
+                src += "print same(h.cur, h.point_to(%s), h.cur)\n" % other
+                exp.append(str(ids[cur] * 10 + ids[other]))
+                cur = other
+            elif form == "plain":
+                src += "print h.cur.touch(1)\n"
+                hits[cur] += 1
+                exp.append(str(ids[cur] * 100 + 1))
+            else:
+                src += "print h.cur is %s\n" % cur
+                exp.append("true")
+            src += "print a.hits\nprint c.hits\n"
+            exp += [str(hits["a"]), str(hits["c"])]
+        out.append((src, exp))
+    return out
+
+
 def run(ctx):
     ok = core.coq_props(ctx, "Props/C08.v")
     binary = core.build_repo()
@@ -1570,6 +1612,21 @@ def run(ctx):
         kinds = {op[0] for op in h}
         if r["compiled"] and len(h) >= 6 and sum(1 for op in h if op[0] == "new") >= 2 and kinds & {"bind", "retsame", "lget", "pass", "lpush"}:
             nontrivial += 1
+    rbase = ctx.mktemp()
+    rcs = repoint_cases(ctx.rng, 40 if ctx.quick() else 400)
+
+    def one_rp(c):
+        d = programs.materialize({"files": {"main.ms": c[0]}}, rbase)
+        r = programs.run_bin(binary, ["run", "main.ms", "-q"], d)
+        shutil.rmtree(d, ignore_errors=True)
+        return r
+    for (src, exp), (rc, out, err) in zip(rcs, programs.pmap(one_rp, rcs)):
+        got = out.split("\n")[:-1]
+        if rc != 0 or got != exp:
+            ctx.report("identity:operand-object-changed-by-later-argument", "an object read from a field as receiver / argument is not the object used once a later argument re-pointed the field: printed %r (exit %d), expected %r" % (got[-6:], rc, exp[-6:]),
+                       {"program": src, "expected": exp, "observed": got, "rc": rc, "stderr": err[-300:], "how": "mscript run main.ms -q"})
+    n_eval += len(rcs)
+    ctx.cov["repoint_cases"] = len(rcs)
     ctx.cov["evaluations"] = n_eval
     ctx.cov["traces_validated_against_impl"] = n_cmp
     ctx.cov["distinct_nontrivial"] = nontrivial
